@@ -76,8 +76,37 @@ func (e *FuncEnc) resultFacts(s string, t types.Type) {
 	}
 }
 
-func (e *FuncEnc) appendEvent(name string, args []string, sorts []string, guard string) {
+// respEvent: events that are "a response": writing the status line, or
+// delegating to another handler (which writes exactly one, inductively).
+func respEvent(name string) bool {
+	name = strings.ReplaceAll(name, "emitted.", "")
+	return name == "http.ResponseWriter.WriteHeader" || name == "http.Handler.ServeHTTP" || name == "net/http.Error" || name == "net/http.NotFound"
+}
+
+func (e *FuncEnc) declareEvent(name string, sorts []string) string {
 	fn := e.D.UF("ev_"+mangle(name), sorts, "Event")
+	e.D.UF("nResp", []string{"Trace"}, "Int")
+	e.D.Axiom("nResp:nil", "(= (nResp tr_nil) 0)")
+	e.D.Axiom("nResp:nonneg", "(forall ((t Trace)) (! (>= (nResp t) 0) :pattern ((nResp t))))")
+	inc := "0"
+	if respEvent(name) {
+		inc = "1"
+	}
+	var bs, as []string
+	for i, srt := range sorts {
+		bs = append(bs, fmt.Sprintf("(a%d %s)", i, srt))
+		as = append(as, fmt.Sprintf("a%d", i))
+	}
+	ev := fn
+	if len(as) > 0 {
+		ev = "(" + fn + " " + strings.Join(as, " ") + ")"
+	}
+	e.D.Axiom("nResp:"+fn, fmt.Sprintf("(forall ((t Trace) %s) (! (= (nResp (tr_cons t %s)) (+ (nResp t) %s)) :pattern ((tr_cons t %s))))", strings.Join(bs, " "), ev, inc, ev))
+	return fn
+}
+
+func (e *FuncEnc) appendEvent(name string, args []string, sorts []string, guard string) {
+	fn := e.declareEvent(name, sorts)
 	ev := fn
 	if len(args) > 0 {
 		ev = sx(fn, args...)
@@ -105,6 +134,9 @@ func (e *FuncEnc) encodeCall(in ssa.Instruction, c *ssa.CallCommon, res ssa.Valu
 		recv := e.v(c.Value)
 		e.safety("nilinvoke", e.describe(c.Value)+"."+c.Method.Name(), not(eq(sx("if_tag", recv), "0")), in.Pos())
 		name := shortType(c.Value.Type()) + "." + c.Method.Name()
+		if e.W != nil && e.W.InvokeSummary != nil && len(rts) == 0 && e.W.InvokeSummary(e, c) {
+			return
+		}
 		e.dynamicCall(in, name, recv, "Iface", c.Args, args, rts, res)
 		return
 	}
@@ -154,6 +186,11 @@ func (e *FuncEnc) dynamicCall(in ssa.Instruction, name, callee, calleeSort strin
 		}
 		e.setResult(res, out)
 		e.Assumed["results of "+name+" are functions of callee and (abstracted) arguments, no side effects"] = true
+		if e.W != nil && e.W.DynResultFact != nil {
+			if f := e.W.DynResultFact(e, name, out, rts); f != "" {
+				e.assume(e.curReach, f)
+			}
+		}
 		return
 	case CallEvent:
 		e.appendEvent(name, all, sorts, "true")
@@ -172,6 +209,11 @@ func (e *FuncEnc) dynamicCall(in ssa.Instruction, name, callee, calleeSort strin
 		out = append(out, s)
 	}
 	e.setResult(res, out)
+	if e.W != nil && e.W.DynResultFact != nil {
+		if f := e.W.DynResultFact(e, name, out, rts); f != "" {
+			e.assume(e.curReach, f)
+		}
+	}
 }
 
 func isModuleFn(w *World, f *ssa.Function) bool {
